@@ -52,7 +52,7 @@ Fixpoint nodupb (l : list string) : bool :=
 Definition proto_model (structs protos : list string) (i : ifc3) : smodel :=
   with_msgids (ids_of i)
     {| sm_states := []; sm_events := structs; sm_actions := []; sm_guards := []; sm_actionsigs := []; sm_tps := []; sm_first := "NO TT PRESENT!";
-       sm_rows := []; if_structs := structs; if_protos := protos; if_msgs := names_of i; if_msgids := [] |}.
+       sm_rows := []; if_structs := structs; if_protos := protos; if_msgs := names_of i; if_msgids := []; if_sigs := [] |}.
 
 (* what the harness evaluates *)
 Definition rx_ref (structs protos : list string) (i : ifc3) (a : list (string * string)) : string :=
